@@ -399,6 +399,8 @@ impl<'a> Reader for ProtobufReader<'a> {
 
     #[inline]
     fn read_null<C: null::Constraint>(&mut self) -> Result<Null, Self::Error> {
+        // consume the (empty) `bytes` field the .proto declares for NULL
+        let _ = self.next_range_format_reader(Format::LengthDelimited);
         Ok(Null)
     }
 }
